@@ -32,7 +32,7 @@ PROP = {
     "trusted": ["harness/pegx (stdlib-only translator of grammar.peg into the Lean value FV.Generated.grammar; the Go code of the actions is not translated, FV/Model/IdlActions.lean is written by hand from it)",
                 "Modelled, not verified: pigeon's matching algorithm as FV.Peg.pExpr (tied on every run by the three-way correspondence), the fragment of strconv.Unquote/ParseInt/ParseFloat and strings.TrimSpace used by the actions",
                 "The harness's renderer (a transcription of the grammar's token sequences and gap kinds), the canonical dump of parser.Frugal, and the classification of inputs into the recorded finding classes"],
-    "level_text": "Theorems (Lean 4) about the PEG grammar REGENERATED from compiler/parser/grammar.peg on every check and an interpreter with pigeon's semantics, each with an explicit fuel bound: FieldType round-trips EVERY annotation-free type - base, named, arbitrarily nested list/set/map - in every white-space styling of its brackets, by induction over the type, under the hypothesis that no type keyword is a prefix of a named type (with the counterexample `stringy` for the recorded finding); every text made of white space, newlines, block comments, // and # comments is consumed exactly by the gap rules `_` / `__`, and such a text after a type does not change the parsed value (comment/white-space invisibility); Identifier consumes exactly every identifier-shaped string and returns it; IntConstant consumes exactly sign and digits and its action yields the signed decimal value or an error exactly when it does not fit int64; the repaired Enum action assigns Thrift's numbers for every list of enum values; the fragment `FieldType _ Identifier` of Field/TypeDef/Const composes (c10_roundtrip_partial); a result obtained with some fuel is the result for every larger fuel (for every grammar). The whole-file round trip parse(render(m)) = m - the stated goal - is NOT proved: literals, constants, annotations, fields as a whole, structs, enum syntax, services, scopes, statement ends and the top level are established on every run by a correspondence in which the declared model, the REAL parser (ParseFrugal incl. include resolution and validation) and the Lean interpreter on the regenerated grammar must agree on generated programs in all lexical styles, on rule fragments and on mutated texts, plus -gen json as an independent view.",
+    "level_text": "Theorems (Lean 4) about the PEG grammar REGENERATED from compiler/parser/grammar.peg on every check and an interpreter with pigeon's semantics, each with an explicit fuel bound: FieldType round-trips EVERY annotation-free type - base, named, arbitrarily nested list/set/map - in every white-space styling of its brackets, by induction over the type, under the hypothesis that no type keyword is a prefix of a named type (with the counterexample `stringy` for the recorded finding); every text made of white space, newlines, block comments, // and # comments is consumed exactly by the gap rules `_` / `__`, and such a text after a type does not change the parsed value (comment/white-space invisibility); Identifier consumes exactly every identifier-shaped string and returns it; IntConstant consumes exactly sign and digits and its action yields the signed decimal value or an error exactly when it does not fit int64; the repaired Enum action assigns Thrift's numbers for every list of enum values; whole declarations round-trip: c10_enum_roundtrip (Enum rule: doc comments, values with or without `= integer`, separators, gaps; syntax composed with the numbering theorem), c10_field_roundtrip (doc, id, required/optional, type, name, integer default, `,` `;` or no separator), c10_fieldlist_roundtrip (induction over the field list), c10_struct_roundtrip (Struct / Exception / Union with fields forced optional); string literals: exact consumption for both quote styles and the value round trip for double-quoted literals with escapes, under the hypothesis that excludes the trailing-backslash finding (c10_literal_consumed, c10_string_literal_partial); the fragment `FieldType _ Identifier` composes (c10_roundtrip_partial); a result obtained with some fuel is the result for every larger fuel (for every grammar). The whole-file round trip parse(render(m)) = m - the stated goal - is NOT proved: single-quoted literal values, non-integer constants, annotations, typedefs, constants, services, scopes, newline/EOF statement ends and the top level are established on every run by a correspondence in which the declared model, the REAL parser (ParseFrugal incl. include resolution and validation) and the Lean interpreter on the regenerated grammar must agree on generated programs in all lexical styles, on rule fragments and on mutated texts, plus -gen json as an independent view.",
     "level_note": "Partial with respect to the stated goal (c10_roundtrip_partial; the list of rules covered by theorem / by correspondence only is in the header of lean/FV/Props/C10.lean). Trusted: Lean kernel, the grammar translator, the hand-written action model, the harness renderer/dumper. Five recorded findings are excluded from generation and replayed as KNOWN-FINDING: keyword-prefix identifiers, statements sharing a line, literals ending in a backslash, a comment after `prefix`, Thrift constructs without a production. Two defects were repaired in /repo (enum numbering, enum-valued constants).",
     "assumptions": ["model class of the generator: names without a grammar keyword as prefix; string values not ending in a backslash; doubles with at most 9 significant digits and |exponent| <= 21 (exact decimal comparison); line ends inside doc comments are LF; prefix variables are a letter, a letter or digit, then word characters (what newScopePrefix accepts); annotations of a scope operation only after a named type (after a base or container type the grammar gives them to the type); no `cpp_type`",
                     "include resolution uses the real file system on the harness side and a finite map (the archive) on the model side",
